@@ -746,6 +746,9 @@ fn read_control() -> Vec<ReadRow> {
             ("Maintainer: x\nSource: foo\n", "Some(\"foo\")"),
             ("Package: a\n", "None"),
             ("", "None"),
+            // near misses of the distinguishing field
+            ("X-Source: s\n\nPackage: a\n", "None"),
+            ("Source-Version: 1\nSources: s\n\nPackage: a\n", "None"),
         ]),
         read_row!("control::Control", "binaries().name()", |d| control(d)?.binaries().map(|b| b.name()).collect::<Vec<_>>(), [
             ("Source: foo\n\nPackage: a\n\nPackage: b\n", "[Some(\"a\"), Some(\"b\")]"),
@@ -753,6 +756,8 @@ fn read_control() -> Vec<ReadRow> {
             ("Source: foo\n\n# c\n\nX-Other: 1\n\nPackage: a\nArchitecture: any\n", "[Some(\"a\")]"),
             ("Source: foo\n\nArchitecture: any\nPackage: a\n", "[Some(\"a\")]"),
             ("Source: foo\n", "[]"),
+            ("Source: foo\n\nPackage-Type: udeb\nArchitecture: any\n", "[]"),
+            ("Source: foo\n\nPackage-List: a deb net optional\nX-Package: b\n\nPackage: c\n", "[Some(\"c\")]"),
             ("", "[]"),
         ]),
         // a field of the source paragraph is read from the source paragraph, not from the first one
